@@ -189,6 +189,19 @@ struct Exec {
         SlotState &st = S[o.slot];
         int k = st.kind; unsigned bs = kind_bs(k);
         if (!defined(o, st)) { ob.skipped = true; ob.life = st.life; log.ev("skip", i); tr(strf("#%d %s  -- skipped (undefined in state %s%s)", i, op_brief(plan, o).c_str(), LIFE_NAME[st.life], st.keyed ? ",keyed" : "")); return; }
+        Op chained;
+        if (o.flags & F_CHAIN) {
+            // a packet: the ciphertext another object produced earlier in this run is this call's input
+            if (o.src < 0 || o.src >= i || R.obs[o.src].skipped || R.obs[o.src].out.size() < (size_t)o.srcoff + o.size) { ob.skipped = true; ob.life = st.life; log.ev("skip-chain", i); return; }
+            chained = o; chained.a.assign(R.obs[o.src].out.begin() + o.srcoff, R.obs[o.src].out.begin() + o.srcoff + o.size);
+            step_with(i, chained); return;
+        }
+        step_with(i, o);
+    }
+    void step_with(int i, const Op &o) {
+        OpObs &ob = R.obs[i];
+        SlotState &st = S[o.slot];
+        int k = st.kind; unsigned bs = kind_bs(k);
         int exp = expect(o, st);
         void *obj = (o.flags & F_NULLOBJ) ? nullptr : st.h;
         int life_before = st.life; bool keyed_before = st.keyed; int backend_before = st.backend; unsigned ksoff_before = st.ksoff;
@@ -448,6 +461,16 @@ struct Exec {
                     return;
                 }
                 if (!st.stream_ok) PROBE("ctr.enc-undefined-stream");
+                if ((o.flags & F_CHAIN) && o.expect >= 0 && o.expect < i && on(CK_OUT)) {
+                    const Bytes &whole = plan.ops[o.expect].a;
+                    PROBE("packet.fragment-delivered");
+                    Bytes plain; if (whole.size() >= (size_t)o.srcoff + o.size) plain.assign(whole.begin() + o.srcoff, whole.begin() + o.srcoff + o.size);
+                    if (plain.size() == ob.out.size() && plain != ob.out) {
+                        size_t q = 0; while (q < plain.size() && plain[q] == ob.out[q]) ++q;
+                        violate("packet-not-restored", strf("%s: the packet encrypted by operation #%d on another object does not decrypt to its plaintext (first wrong byte %zu)", op_brief(plan, o).c_str(), o.expect, q));
+                        return;
+                    }
+                }
             }
             break;
         case OP_PENC: case OP_PDEC:
